@@ -45,6 +45,10 @@ CHECKS = {
    tech="TLA+ spec SearchFlow.tla enumerates scenarios with TLC; each is executed with the query and its admissible case re-spellings (and white-space paddings through the real binary); TLC validates on the recorded events that all answers are identical (TraceSearch.tla)",
    text="For TLC-enumerated scenarios on every path (lexical, NLP, typo fallback, cached, CLI) the query is re-spelt in upper, title and alternating case and with code points whose lower case is an ordinary letter (KELVIN SIGN, ANGSTROM SIGN); at the CLI it is additionally padded with leading, trailing, repeated spaces and tabs; TLC checks that every re-spelling received the identical ranked answer with identical score bits.",
    note="Only re-spellings with ToLower(r') = ToLower(r) are paired; awkward letters outside that relation are not compared."),
+ "C05": dict(cat="model_checking", ref="DESIGN.md section 5, C05",
+   tech="TLA+ spec CacheLayer.tla (transparency as the only property, uninterpreted Fresh): TLC exhaustive model check over histories; TLC-derived tours executed on the real Cached/MonitoredDatabase with the uncached engine as oracle; TLC trace validation of walker and random histories",
+   text="TLC explores every history (<= 4/5 steps) of search, monitored search, entry loss, invalidate, enable/disable and database replacement over case-variant queries and option vectors and checks that every answer equals what the uncached engine would return and that no entry outlives a replacement (defect switches for a key that ignores an option field and for a missing invalidation regenerate the counterexamples); every transition of the dumped graph is executed on the real caching/monitoring layer with the model's option fields mapped onto pairs of the 11 real option fields, and long random histories incl. the shipped database are recorded; TLC validates each history: answer = fresh answer, and a cache hit only for an identity stored since the last invalidation.",
+   note="Capacity/TTL over-approximated in the trace spec; logical clock via VerifAdvance."),
 }
 NOT_APPLICABLE = {}
 
